@@ -102,6 +102,32 @@ func genC19(g *gen) {
 	}
 	g.line("Definition gen_add_allowed_route_skips_present_network : bool := %s.", coqBool(dedupe))
 
+	// AddAllowedRoute / RemoveAllowedRoute: the scan and the update happen in ONE write-lock region:
+	// the function starts with routesMu.Lock(); defer routesMu.Unlock() and touches the mutex nowhere else
+	oneRegion := func(name string) bool {
+		fd := findFunc(hf, "Handler", name)
+		if fd == nil || fd.Body == nil || len(fd.Body.List) < 2 {
+			return false
+		}
+		es, ok1 := fd.Body.List[0].(*ast.ExprStmt)
+		ds, ok2 := fd.Body.List[1].(*ast.DeferStmt)
+		if !ok1 || !ok2 {
+			return false
+		}
+		c0, ok := es.X.(*ast.CallExpr)
+		if !ok || !strings.HasSuffix(calleeName(c0), ".routesMu.Lock") || !strings.HasSuffix(calleeName(ds.Call), ".routesMu.Unlock") {
+			return false
+		}
+		n := 0
+		calls(fd.Body, func(c *ast.CallExpr) {
+			if strings.Contains(calleeName(c), ".routesMu.") {
+				n++
+			}
+		})
+		return n == 2
+	}
+	g.line("Definition gen_allow_list_updates_are_one_write_lock_region : bool := %s.", coqBool(oneRegion("AddAllowedRoute") && oneRegion("RemoveAllowedRoute")))
+
 	// RemoveAllowedRoute: removes one entry (returns inside the loop at the first String() match)
 	removeFirst := false
 	if fd := findFunc(hf, "Handler", "RemoveAllowedRoute"); fd != nil && fd.Body != nil {
